@@ -102,19 +102,22 @@ DW == [g \in 1..NG |-> DerivedW(Pts(g))]           \* (constant table)
 UsedW(v, s, g, wm) == IF wm = "explicit" THEN Grids[g].xw
                       ELSE IF MemoHit(v, s, g) THEN s.memo.W ELSE DW[g]
 
-Entry(N, tb, f) == IF B!WSum(N, tb) > 0 THEN [k |-> "num", v |-> B!Binned(N, tb, f)] ELSE [k |-> "zero"]
-FluxBinned(v, s, g, wm, f) ==
-    LET N == CellsOf(Pts(g), UsedW(v, s, g, wm)) IN [i \in 1..NB |-> Entry(N, Tb(s, i), f)]
-FluxErr2(v, s, g, wm) ==
-    LET N == CellsOf(Pts(g), UsedW(v, s, g, wm)) IN
-    [i \in 1..NB |-> IF B!WSum(N, Tb(s, i)) > 0 THEN B!BinnedErr2(N, Tb(s, i), ESeq(g)) ELSE <<0, 1>>]
+\* overlap weights of the native cells N with the target bin tb, computed once per bin and applied to every
+\* spectrum binned in the call; WMean(WVec(N, tb), f) is Binning!Binned(N, tb, f) (MeanIsBinned, checked once)
+WMean(wv, f)  == Norm(B!ISum([k \in 1..Len(wv) |-> wv[k] * f[k]]), B!ISum(wv))
+WErr2(wv, e)  == LET sw == B!ISum(wv) IN Norm(B!ISum([k \in 1..Len(wv) |-> wv[k] * wv[k] * e[k] * e[k]]), sw * sw)
+EntryW(wv, f) == IF B!ISum(wv) > 0 THEN [k |-> "num", v |-> WMean(wv, f)] ELSE [k |-> "zero"]
+Weights(v, s, g, wm) == LET N == CellsOf(Pts(g), UsedW(v, s, g, wm)) IN [i \in 1..NB |-> B!WVec(N, Tb(s, i))]
+FluxBinned(wts, f) == [i \in 1..NB |-> EntryW(wts[i], f)]
+FluxErr2(wts, e)   == [i \in 1..NB |-> IF B!ISum(wts[i]) > 0 THEN WErr2(wts[i], e) ELSE <<0, 1>>]
 SimpleBinned(s, g, f) ==
     [i \in 1..NB |-> IF B!HistMembers(s.c, Pts(g), i) = {} THEN [k |-> "empty"]
                      ELSE [k |-> "num", v |-> B!HistMean(s.c, Pts(g), f, i)]]
 NativeVals(f) == [k \in 1..Len(f) |-> [k |-> "num", v |-> Q(f[k])]]
-Binned(v, s, g, wm, f) == CASE v.kind = "flux"   -> FluxBinned(v, s, g, wm, f)
-                            [] v.kind = "simple" -> SimpleBinned(s, g, f)
-                            [] OTHER             -> NativeVals(f)
+\* wts: the weights of this call (flux only)
+Binned(v, s, g, wts, f) == CASE v.kind = "flux"   -> FluxBinned(wts, f)
+                             [] v.kind = "simple" -> SimpleBinned(s, g, f)
+                             [] OTHER             -> NativeVals(f)
 \* wavelength width of a bin, converted at the bin centre (lattice units; the harness divides by its unit)
 WlW(c, w) == Norm(10000 * w, c * c)
 
@@ -140,20 +143,21 @@ Res(v, s, op) ==
     LET g   == op.g
         bin == v.kind # "native"
         s1  == Step(v, s, op)          \* the output dictionary aliases the binner's widths
+        wts == IF v.kind = "flux" THEN Weights(v, s, g, op.wm) ELSE <<>>
     IN  IF op.k = "output"
         THEN [grid   |-> IF bin THEN s.c ELSE Pts(g),
               widths |-> IF bin THEN s1.w ELSE <<>>,
-              val    |-> Binned(v, s, g, "derived", FSeq(g)),
-              tau    |-> IF bin /\ op.size # "lighter" THEN [r \in 1..2 |-> Binned(v, s, g, "derived", TauRows(g)[r])] ELSE <<>>,
+              val    |-> Binned(v, s, g, wts, FSeq(g)),
+              tau    |-> IF bin /\ op.size # "lighter" THEN [r \in 1..2 |-> Binned(v, s, g, wts, TauRows(g)[r])] ELSE <<>>,
               err2   |-> <<>>,
               wlw    |-> IF bin THEN [i \in 1..NB |-> WlW(s.c[i], s.w[i])] ELSE <<>>,
               native |-> <<Pts(g), FSeq(g)>>]
         ELSE [grid   |-> IF bin THEN s.c ELSE Pts(g),
               widths |-> IF bin THEN s.w ELSE IF op.wm = "explicit" THEN Grids[g].xw ELSE <<>>,
-              val    |-> Binned(v, s, g, op.wm, FSeq(g)),
+              val    |-> Binned(v, s, g, wts, FSeq(g)),
               tau    |-> <<>>,
               err2   |-> IF ~op.err \/ v.kind = "simple" THEN <<>>
-                         ELSE IF v.kind = "flux" THEN FluxErr2(v, s, g, op.wm)
+                         ELSE IF v.kind = "flux" THEN FluxErr2(wts, ESeq(g))
                          ELSE [k \in 1..NP(g) |-> Q(EVal(g, k) * EVal(g, k))],
               wlw    |-> <<>>,
               native |-> <<>>]
@@ -161,7 +165,8 @@ Res(v, s, op) ==
 SoundV(v) == v.key \in {"none", "content"} /\ v.conv = "copy"
 RefV(v)   == [kind |-> v.kind, key |-> "none", conv |-> "copy"]
 \* what a freshly built binner returns for the operation (a constant table: TLC evaluates it once)
-FreshTab == [kind \in Kinds |-> [op \in Ops |-> Res([kind |-> kind, key |-> "none", conv |-> "copy"], FreshBs, op)]]
+AllKinds == {"flux", "simple", "native"}
+FreshTab == [kind \in AllKinds |-> [op \in Ops |-> Res([kind |-> kind, key |-> "none", conv |-> "copy"], FreshBs, op)]]
 Fresh(v, op) == FreshTab[v.kind][op]
 
 \* ------------------------------------------------------------ behaviours
@@ -214,8 +219,12 @@ AlgAgrees ==
         LET W == IF wm = "explicit" THEN Grids[g].xw ELSE DerivedW(Pts(g))
             a == B!AlgBin([k \in 1..NP(g) |-> 2 * Pts(g)[k]], W, FSeq(g), ESeq(g), 2 * SortedC[i], SortedW[i], "ok")
             N == CellsOf(Pts(g), W)
+            wv == B!WVec(N, Tb(FreshBs, i))
         IN  /\ a.k = "num" /\ a.v = B!Binned(N, Tb(FreshBs, i), FSeq(g))
             /\ a.e2 = B!BinnedErr2(N, Tb(FreshBs, i), ESeq(g))
+            \* MeanIsBinned: the weights-once form used above is the definition
+            /\ WMean(wv, FSeq(g)) = B!Binned(N, Tb(FreshBs, i), FSeq(g))
+            /\ WErr2(wv, ESeq(g)) = B!BinnedErr2(N, Tb(FreshBs, i), ESeq(g))
 \* the alphabet holds what the mutants need: two grids with the same number of points and the same end
 \* points whose derived widths differ, one with another number of points, derived cells that do not tile
 SameEnds(g, h) == NP(g) = NP(h) /\ Pts(g)[1] = Pts(h)[1] /\ Pts(g)[NP(g)] = Pts(h)[NP(h)]
